@@ -542,6 +542,20 @@ func c04Run(c *Ctx) {
 		for !isComplete(tc.Opt) {
 			tc.Opt = randOpt(r)
 		}
+		if i%40 == 11 {
+			// directed: a deep chain - every key is a prefix of the next one, so that one root-to-leaf
+			// path carries 70..130 inner nodes (the scan stack grows with the path)
+			depth := 70 + r.Intn(60)
+			unit := []string{"d/", "x", "ab"}[r.Intn(3)]
+			keys := make([]string, depth)
+			for j := range keys {
+				keys[j] = strings.Repeat(unit, j+1)
+			}
+			sort.Strings(keys)
+			tc.Keys, tc.Kind = keys, "deep-chain"
+			tc.IDs, tc.VKind = genValueIDs(r, len(keys), VDistinct), vkindNames[VDistinct]
+			tc.Queries = genQueries(r, tc.Keys, 40)
+		}
 		tc.Enc = c04Encs[r.Intn(len(c04Encs))]
 		if i%7 == 3 && tc.IDs != nil {
 			tc.Enc = []string{"S16", "RAW"}[r.Intn(2)] // variable-width values
